@@ -53,6 +53,8 @@ def gen_rspec(rng, frng, name):
     elif r < 0.58:
         rs["kind"] = "metadata_key"
         rs["key"] = "MK_" + name.upper()
+        if frng.random() < 0.25:
+            rs["key"] = rng.choice(["pass", "info", "none", "reports", "skips", "system", "fingerprints"])     # a section's name
     elif r < 0.68:
         rs["kind"] = "none"
     elif r < 0.74:
@@ -380,6 +382,12 @@ def oracle_c12(case, res, m):
             if shown(type_) and any(e[0] == "typed" and e[1] == type_ for e in exp.values()):
                 out.append(V("C12.accounting", "heading-missing:%s" % heading, "heading %s absent although rules of type %s reported" % (heading, type_)))
             continue
+        if not isinstance(entries, list):
+            # a rule's metadata key of that very name sits where the section belongs
+            if shown(type_) and any(e[0] == "typed" and e[1] == type_ for e in exp.values()):
+                out.append(V("C12.accounting", "section-replaced-by-metadata-key:%s" % heading,
+                             "rules of type %s reported, but the response holds %r under %r" % (type_, entries, heading)))
+            continue
         if not shown(type_):
             if entries:
                 out.append(V("C12.formatter", "heading-not-filtered:%s" % heading, "heading %s present although not selected by show_rules=%s" % (heading, show)))
@@ -502,7 +510,9 @@ def oracle_c12(case, res, m):
                         out.append(V("C12.accounting", "lost:metadata", "rule %s: metadata %s=%s not in system.metadata %r" % (name, k, v, md)))
         elif e[0] == "metadata_key":
             if repr(resp.get(e[1])) != e[2][0][1]:
-                out.append(V("C12.accounting", "lost:metadata_key", "rule %s: top-level %s is %r, expected %s" % (name, e[1], resp.get(e[1]), e[2][0][1])))
+                reserved = e[1] in set(HEADING.values()) | set(["system", "skips", "analysis_metadata"])
+                out.append(V("C12.accounting", "lost:metadata_key" + (":key-is-a-section-name" if reserved else ""),
+                             "rule %s: top-level %s is %r, expected %s" % (name, e[1], resp.get(e[1]), e[2][0][1])))
     # ---- totals
     n_typed = sum(len(v) for v in got.values())
     want_typed = sum(1 for e in exp.values() if e[0] == "typed" and shown(e[1]))
